@@ -128,38 +128,56 @@ func runC09(c *fw.Ctx) {
 		steps := 5 + rg.Intn(26)
 		bulk := false
 		names := []string{}
+		drainEvery, held := 1, 0
+		if s%3 == 2 {
+			drainEvery = 2 + rg.Intn(3)
+		}
+		w.noCollect = true
 		for i := 0; i < steps; i++ {
 			actor := 0
 			if rg.Intn(10) < 3 {
 				actor = 1
 			}
 			w.force = actor
-			before := w.nodes[0].Canon()
-			nb := len(w.all)
 			tl := len(w.trace)
+			before := w.nodes[0].Canon()
 			w.step(true)
-			if len(w.trace) == tl {
-				continue
-			}
-			call := w.trace[len(w.trace)-1]
-			names = append(names, call)
-			if containsAny(call, "DeleteSession", "DeletePeer") {
-				bulk = true
-			}
-			fresh := w.all[nb:]
-			if actor == 1 {
-				// the other peer's broadcasts reach both the node and the follower
-				for _, bc := range fresh {
-					w.nodes[0].Deliver(bc)
-					b.Deliver(bc)
+			last := i == steps-1
+			if len(w.trace) != tl {
+				call := w.trace[len(w.trace)-1]
+				names = append(names, call)
+				if containsAny(call, "DeleteSession", "DeletePeer") {
+					bulk = true
 				}
+				if actor == 1 {
+					// the other peer's broadcasts reach both the node and the follower at once
+					for _, bc := range w.collect(1) {
+						w.nodes[0].Deliver(bc)
+						b.Deliver(bc)
+					}
+					if !last {
+						continue
+					}
+				} else {
+					held++
+				}
+			}
+			// in a third of the sequences the node's queue is drained only every 2-4 calls: what a
+			// later call queues must not displace what is still waiting
+			if (held < drainEvery && !last) || len(names) == 0 {
 				continue
 			}
+			held = 0
+			fresh := w.collect(0)
 			for _, bc := range fresh {
 				b.Deliver(bc)
 			}
 			c.Observe("broadcasts_delivered", len(fresh))
-			if !check("B", names, w.nodes[0], b, before, len(fresh)) {
+			queued := len(fresh)
+			if drainEvery > 1 || actor == 1 {
+				queued = 1 // "changed without a broadcast" is judged per call only (drain after every call of the node itself)
+			}
+			if !check("B", names, w.nodes[0], b, before, queued) {
 				break
 			}
 		}
